@@ -24,7 +24,8 @@ RULE = ('Engine A: lattice of experiment frames (5 shapes x noise patterns x n_p
         '1 - cdf(threshold), lower <= estimate <= upper (ordering only for levels > 0.5 when tails = 1, scope S1); '
         'TBRMMDiagnostics.tbrfit on the same totals gives the same estimate and |t_sig| * scale half-width, on a fresh object and on an object that analysed other series (other control series; other treatment series of another length) before and whose caller refills his array after handing it in. '
         'Non-trivial = frame with >= 2 analysed days or a non-default layout; distinct = distinct case.')
-ASSUMPTIONS = ['value lattice: integer totals (multiples of 4) from 5 shapes + small noise patterns; comparisons at 1e-9 relative',
+ASSUMPTIONS = ['frames whose pre-period points lie exactly on a line (zero residual variance) are dropped and counted',
+               'value lattice: integer totals (multiples of 4) from 5 shapes + small noise patterns; comparisons at 1e-9 relative',
                'scipy.stats.t quantiles/CDF are trusted (common to implementation and oracle)',
                'scope S1: ordering/precision clauses not asserted for tails=1 with level <= 0.5']
 
@@ -45,7 +46,7 @@ def cases(tier, seed):
     thorough = tier == 'thorough'
     shapes = frames.SHAPES
     for sh, npre, ntest, ncool in itertools.product(shapes, (3, 4, 6, 8, 12), (1, 2, 4), (0, 2)):
-        for noise in ((0, 1, 2) if thorough else (0,)):
+        for noise in ((0, 1, 2) if thorough else (0, 1)):
             for use_cd in ((True, False) if ncool else (False,)):
                 spec = {'shape': sh, 'npre': npre, 'ntest': ntest, 'ncool': ncool, 'noise': noise, 'seed': seed}
                 out.append({'spec': spec, 'use_cooldown': use_cd})
@@ -91,6 +92,10 @@ def run_case(case):
     keep = [i for i, p in enumerate(periods) if p == 1 or (p == 2 and use_cd)]
     xt, yt = x0[keep], y0[keep]
     ref = rstats.tbr_posterior(x0[:npre], y0[:npre], xt, yt)
+    if ref['fit']['s2'] <= 1e-9 * max(1.0, float(np.var(y0[:npre]))):
+        # pre-period points exactly on a line: zero residual variance, the posterior is degenerate (scale 0, quantiles
+        # decided by rounding noise) - outside "fitted experiment"; dropped and counted, like in C05 / C18
+        return {'viol': [], 'nontrivial': False, 'outcome': 'zero-residual-variance', 'counts': {'degenerate_frames_dropped': 1}}
     viol = []
     tier_settings = SETTINGS_ALL if case.get('all_settings') else SETTINGS_Q
 
